@@ -151,9 +151,8 @@ Theorem C18_service_names_inside_merge : forall date d,
   parse_date date = Some d -> good_name (merge_name date).
 Proof. exact merge_name_good. Qed.
 Print Assumptions C18_service_names_inside_merge.
-(* chart: days of years 0000..9999 *)
-Theorem C18_service_names_inside_chart : forall s e,
-  (-719528 <= s < 2932897)%Z -> (-719528 <= e < 2932897)%Z -> good_name (chart_name s e).
+(* chart: every pair of day numbers *)
+Theorem C18_service_names_inside_chart : forall s e, good_name (chart_name s e).
 Proof. exact chart_name_good. Qed.
 Print Assumptions C18_service_names_inside_chart.
 
